@@ -71,6 +71,23 @@ def r05_1(run):
     ok = bool(copies) and bool(graphs) and all(cfg.dominates(g, c) for g in graphs for c in copies) and all(cfg.dominates(c, nk) for c in copies)
     run.ob("R05.1", loc(fi, cfg.stmt[copies[0]] if copies else fi.node), fi.short, "order: duplicate graph -> copy base -> run kernel", ok,
            "dominance chain DuplicatingGraph(...) > graph.base.tensor.copy() > kernel" if ok else "copy/kernel ordering broken")
+    # the private copy must preserve the base's memory layout (np.copy: order='K'); ndarray.copy() defaults to order='C'
+    cp = anchor_func(run, f"{TENSOR}.copy")
+    builds = [c for c in own_nodes(cp.node) if isinstance(c, ast.Call) and (dotted(c.func) or "") in ("Tensor", "type(self)") and c.args]
+    okl = False
+    for b in builds:
+        a0 = b.args[0]
+        if isinstance(a0, ast.Call):
+            d = dotted(a0.func) or ""
+            o = kw(a0, "order")
+            if d in ("np.copy", "numpy.copy") and (o is None or norm(o) in ("'K'", "'A'")):
+                okl = True
+            if isinstance(a0.func, ast.Attribute) and a0.func.attr == "copy" and o is not None and norm(o) in ("'K'", "'A'"):
+                okl = True
+    run.ob("R05.1", loc(cp, builds[0] if builds else cp.node), cp.short, "the private copy used for in-place updates preserves the base's memory layout", okl,
+           "np.copy(self.data) (order='K')" if okl else
+           "copy is made in C order regardless of the base's layout: reshape-like views of an F-ordered base, replayed on the copy, stop being "
+           "views, so in-place updates no longer reach them")
     # untracked: straight into self.data
     cfg0 = build_cfg(run, fi, switch_assumptions(fi, track=False))
     k0 = [c for c in calls_named(fi.node, "_op") if kw(c, "out") is not None and cfg0.stmt_node_containing(c) is not None
@@ -201,13 +218,41 @@ def r05_4(run):
            "two reaching definitions: placeholder_mutant_view | _op(UnView, ...)" if ok else "public base is not connected to the in-place op")
 
 
+def r05_5(run):
+    """NumPy `where=` masks broadcast against the output; a boolean *index* does not. The mask must therefore be combined with
+    gradients by broadcasting arithmetic only."""
+    n = 0
+    for q in (f"{DUP}.ApplyMask.backward_var", "mygrad.operation_base.Operation.backward"):
+        fi = anchor_func(run, q)
+        masks = {"self._mask", "self.where", "mask"}
+        changed = True
+        while changed:
+            changed = False
+            for s in own_nodes(fi.node):
+                if isinstance(s, ast.Assign) and assigned_name(s) and assigned_name(s) not in masks:
+                    if any(norm(x) in masks for x in ast.walk(s.value) if isinstance(x, (ast.Name, ast.Attribute))) and \
+                            not any(isinstance(x, ast.BinOp) and isinstance(x.op, ast.Mult) for x in ast.walk(s.value)):
+                        masks.add(assigned_name(s))
+                        changed = True
+        bad = []
+        for x in own_nodes(fi.node):
+            if isinstance(x, ast.Subscript) and any(norm(y) in masks for y in ast.walk(x.slice) if isinstance(y, (ast.Name, ast.Attribute))):
+                bad.append(x)
+        n += 1
+        run.ob("R05.5", loc(fi, bad[0] if bad else fi.node), fi.short, "the where-mask is never used as a subscript index", not bad,
+               "mask enters only through broadcasting arithmetic (grad * mask / grad * logical_not(mask))" if not bad else
+               f"`{norm(bad[0])[:50]}` indexes with the mask: a mask that NumPy broadcast against the output selects the wrong elements (or raises)")
+
+
 def check(run):
     run.rule("R05.1", "the tracked in-place kernel writes into a private copy of the base (def-use chain to graph.base.tensor.copy()), made after "
              "the graph duplication; operands are placeholders", floor=4)
     run.rule("R05.2", "placeholders mirror the originals and take over their consumers; every member of the view family gets one", floor=8)
     run.rule("R05.3", "ordering/rollback: duplication dominates the kernel, kernel dominates every mirror (= R13.2)", floor=5)
+    run.rule("R05.5", "where-masks are applied by broadcasting arithmetic, never as an index", floor=2)
     run.rule("R05.4", "ApplyMask / UnView glue ops are created under exactly their conditions with the placeholder operands", floor=3)
     r05_1(run)
     r05_2(run)
     r05_3(run)
     r05_4(run)
+    r05_5(run)
